@@ -1223,6 +1223,7 @@ func runFontCase(c *hx.Ctx, k fcase, tag string) {
 		got = fmt.Sprintf("ok n=%d %s", n, body)
 	}
 	c.Op("c01.read "+absFileFields(tr)+" "+inflateTable(tr)+" "+fontNfcTable(k.Doc), got)
+	bytesOps(c, k, path, inflateTable(tr), fontNfcTable(k.Doc), got)
 
 	// statement level: the logical document decides
 	if !c.Check("C01/font-read", firstErr == nil, k, func() string {
